@@ -1,12 +1,16 @@
 #!/bin/bash
 # try_seeded.sh <patch.diff> <ID> [ID...] : apply a seeded change in the coordinator's scratch
-# worktree (/tmp/mt-coord), run the given checks' quick tiers there, revert.  /repo is untouched.
+# worktree (/tmp/mt-coord, a git worktree of /repo at its current HEAD), run the given checks'
+# quick tiers there (harness copy built against that worktree, outputs under /tmp/mt-coord/out),
+# revert.  /repo itself is never touched.
 patch=$1; shift
 [ -d /tmp/mt-coord ] || /verif/tools/mutant_env.sh coord >/dev/null
-/verif/tools/mutant_env.sh coord >/dev/null   # refresh harness copy
-cd /tmp/mt-coord/repo && git checkout -q -- . && git clean -fdq && git apply "$patch" || { echo "patch does not apply"; exit 3; }
+/verif/tools/mutant_env.sh coord >/dev/null   # refresh the harness copy
+cd /tmp/mt-coord/repo || exit 3
+git reset -q --hard && git clean -fdq
+git apply --3way "$patch" >/dev/null 2>&1 || { echo "patch does not apply: $patch"; exit 3; }
 for id in "$@"; do
   /tmp/mt-coord/run $id quick > /tmp/mt-coord/out/.work/seeded-$id.log 2>&1
-  echo "$id rc=$? $(grep -E '^VIOLATION' /tmp/mt-coord/out/.work/seeded-$id.log | head -2 | tr '\n' ' ') $(grep -E "^$id quick:" /tmp/mt-coord/out/.work/seeded-$id.log | tail -1)"
+  echo "$(basename $(dirname $patch)) $id rc=$? $(grep -E '^VIOLATION' /tmp/mt-coord/out/.work/seeded-$id.log | head -2 | tr '\n' ' ') $(grep -E "^$id quick:" /tmp/mt-coord/out/.work/seeded-$id.log | tail -1)"
 done
-cd /tmp/mt-coord/repo && git checkout -q -- . && git clean -fdq
+cd /tmp/mt-coord/repo && git reset -q --hard && git clean -fdq
